@@ -4,6 +4,7 @@ package main
 
 import (
 	"fmt"
+	"os"
 	"go/types"
 	"sort"
 	"strings"
@@ -232,6 +233,9 @@ func (vc *VC) colSetStore(st *State, col string, s Sort, prev, key, idx, val Ter
 
 // readCol reads column version h at (key[, idx]) in read-over-write form.
 func (vc *VC) readCol(h, key, idx Term, depth int) Term {
+	if os.Getenv("CBV_NO_ROW") != "" {
+		depth = 100
+	}
 	if rec, ok := vc.stores[h]; ok && depth < 8 && (rec.idx == "") == (idx == "") {
 		rest := vc.readCol(rec.prev, key, idx, depth+1)
 		if idx == "" {
@@ -319,6 +323,9 @@ func (vc *VC) lvLeafCol(lv *LV, l Leaf) (string, Sort, bool) {
 // pre-state (one quantified axiom per reference-valued column).
 func (vc *VC) refColumn(col string, s Sort, l Leaf) {
 	if l.Kind != LRef && l.Kind != LArr {
+		return
+	}
+	if os.Getenv("CBV_NO_REFAX") != "" {
 		return
 	}
 	if vc.refAx == nil {
